@@ -20,10 +20,14 @@ EXPLANATION = (
     "with numpy.inf, so `select`'s default is unreachable for finite numbers, and the interval test is "
     "`data <= boundary`); R-missing-columns (column check on every transform, before any "
     "transformation); R-names-feature (both rejections name the feature); R-assert-only; R-index-kept (labels "
-    "are stored with index=X.index, otherwise rows of a frame with another index get NaN instead of a fitted label)."
+    "are stored with index=X.index, otherwise rows of a frame with another index get NaN instead of a fitted label); "
+    "R-forward-sentinels (every inner discretizer receives the outer str_nan / str_default, so the default group "
+    "and the missing-value modality written at fit are the ones transform looks for); R-numeric-only-call "
+    "(numpy.isnan/isfinite never sees a possibly non-numeric value: TypeError instead of a label or an "
+    "AssertionError); assertion messages cannot themselves raise."
 )
 NOT_DECIDED = "implicit exceptions raised inside pandas/numpy (KeyError/TypeError) cannot be excluded statically"
-FLOORS = {"R-check-before-replace": 4, "R-default-formula": 2, "R-nan-assert": 2, "R-total-cover": 3, "R-missing-columns": 2, "R-names-feature": 2, "R-assert-only": 1, "R-index-kept": 1}
+FLOORS = {"R-check-before-replace": 4, "R-default-formula": 2, "R-nan-assert": 2, "R-total-cover": 3, "R-missing-columns": 2, "R-names-feature": 2, "R-assert-only": 2, "R-index-kept": 1, "R-forward-sentinels": 8, "R-numeric-only-call": 4}
 
 
 def rule_check_before_replace(ctx):
@@ -198,6 +202,11 @@ def check(ctx):
     rule_missing_columns(ctx)
     rule_names_feature(ctx)
     c19.rule_assert_only(ctx)
+    c19.rule_assert_message_total(ctx)
+    from . import c17, quant
+
+    quant.check_forward_sentinels(ctx, "R-forward-sentinels")
+    c17.rule_numeric_only(ctx)
     from . import c07
 
     c07.rule_index_kept(ctx)
@@ -216,6 +225,9 @@ MUTANTS = [
     M("interval test strict", [(F_BASE, "values_to_group = [df_feature <= value for value in feature_values if value != str_nan]", "values_to_group = [df_feature < value for value in feature_values if value != str_nan]")], "R-total-cover", "right-closed"),
     M("validation skipped when copy=False", [(F_BASE, "        x_copy = self.__prepare_data(X, y)\n\n        # transforming quantitative features", "        x_copy = self.__prepare_data(X, y) if self.copy else X\n\n        # transforming quantitative features")], "R-missing-columns"),
     M("message does not name the feature", [(F_BASE, "            f\"'{feature}' at transform step but not during fit. There might be new values \"\n            \"in your test/dev set. Consider taking a bigger test/dev set or dropping the \"\n            f\"column {feature}.\"", "            \"at transform step but not during fit. There might be new values \"\n            \"in your test/dev set. Consider taking a bigger test/dev set or dropping the \"\n            \"column.\"")], "R-names-feature"),
+    M("str_default not forwarded to the inner CategoricalDiscretizer", [("AutoCarver/discretizers/discretizers.py", "                str_nan=self.str_nan,\n                str_default=self.str_default,\n                verbose=self.verbose,\n                copy=False,", "                str_nan=self.str_nan,\n                verbose=self.verbose,\n                copy=False,")], "R-forward-sentinels", "CategoricalDiscretizer"),
+    M("numpy.isnan on the transformed column", [(F_BASE, "    nans = isna(df_feature)\n", "    nans = isnan(df_feature)\n"), (F_BASE, "from numpy import floating, integer, isfinite, nan, select", "from numpy import floating, integer, isfinite, isnan, nan, select")], "R-numeric-only-call", "transform_quantitative_feature"),
+    M("assertion message joins raw values", [(F_BASE, "                f\"{str(list(unexpected))} of feature '{feature}' was not provided. \"", "                f\"{', '.join(unexpected)} of feature '{feature}' was not provided. \"")], "R-assert-only", "can raise"),
     M("unexpected values raise KeyError", [(F_BASE, "            assert len(unexpected) == 0, (\n                \" - [Discretizer] Unexpected value! The ordering", "            if len(unexpected) > 0:\n                raise KeyError(unexpected)\n            assert True, (\n                \" - [Discretizer] Unexpected value! The ordering")], "R-assert-only"),
 ]
 BENIGN = [
